@@ -24,6 +24,9 @@ Lemma fr_io_setitem k s hpf g i v e : snd (io_setitem all_fixed k s hpf g i v) =
 Proof. unfold io_setitem. cbn [all_fixed]. brk; fr. Qed.
 Lemma fr_io_delitem k s g i e : snd (io_delitem all_fixed k s g i) = Raise e -> fst (io_delitem all_fixed k s g i) = s.
 Proof. unfold io_delitem. cbn [all_fixed]. apply fr_io_pop. Qed.
+Lemma fr_io_setslice k s hpf g a b vs e :
+  snd (io_setslice all_fixed k s hpf g a b vs) = Raise e -> fst (io_setslice all_fixed k s hpf g a b vs) = s.
+Proof. unfold io_setslice. cbn [all_fixed]. brk; fr. Qed.
 Lemma fr_init_delitem s g key e : snd (init_delitem s g key) = Raise e -> fst (init_delitem s g key) = s.
 Proof. unfold init_delitem. brk; fr. Qed.
 
@@ -168,6 +171,8 @@ Proof.
   - unfold lift_ow, io_clear. discriminate.
   - lifted fr_io_setitem.
   - lifted fr_io_delitem.
+  - lifted fr_io_setslice.
+  - unfold lift_ow, io_delslice. cbn [all_fixed]. discriminate.
   - unfold lift_ow, io_imul. cbn [all_fixed]. intros [= <- _]. apply with_ow_id.
   - unfold lift_ow, io_reverse. discriminate.
   - lifted fr_init_setitem.
